@@ -49,6 +49,17 @@ CHECKS["C01"] = (
     "DESIGN.md section 3 / C01",
 )
 
+CHECKS["C02"] = (
+    "Hypothesis triples of trees with targeted origin variants per position vs position-wise reference equality",
+    "Seeded Hypothesis search over triples (a, b, c) built from one tree spec with origin variants at uniformly "
+    "chosen positions (incl. kind-only differences), optional content mutations, equal-but-distinct source "
+    "objects and a detached first tree; ==, != are compared with a reference (class, structural key, origin "
+    "spec at every position) in both directions, plus reflexivity, symmetry, transitivity on the real results, "
+    "foreign comparands and hash constancy. Bounded exploration.",
+    "Trusts Hypothesis, the reference key and canonical origin specs; a == b => equal hashes is not asserted.",
+    "DESIGN.md section 3 / C02",
+)
+
 NOT_YET = "check not built yet in this snapshot (see DESIGN.md section 9 build order); nothing is claimed"
 
 
